@@ -60,6 +60,10 @@ def explore(ctx: Ctx, fam: Family, thorough: bool):
 def check(ctx: Ctx, rep: Report, thorough: bool = False):
     rep.rule("C14.R1", "window containment: every sensor offered for a block consumes only bytes inside the window of the request it is decoded from", 300)
     rep.rule("C14.R2", "single-register reads (modbus-N escape hatch) decode exactly the one register they fetch", 4)
+    # the window argument below is about the block the request fetched; what the sensors are handed is that block
+    # only if trim_response cuts header and checksum by constant amounts (framing model; C14.R0 when it does not)
+    from ..framing import families
+    ctx.memo("families", lambda: families(ctx.prog, ctx.res))
     dec = decoders_ctx(ctx)
     nconf = nout = 0
     verdicts: Dict[Tuple[str, str, str], Dict] = {}
